@@ -273,7 +273,9 @@ def rule_primes(ctx):
         ok = False
         det = ""
         if len(st) == 1:
-            f = {x["name"]: render(strip(x["e"])) for x in st[0]["fields"]}
+            from astlib import inline_lets
+
+            f = {x["name"]: render(strip(x["e"])) for x in inline_lets(st[0], new["body"])["fields"]}
             det = str(f)
             ok = f.get("prime") == "curve.prime()" and f.get("curve") == "curve"
         ctx.check(R, "UsefulConstants::new/prime-of-selected-curve", ok, det, site(CONSTS, new))
